@@ -240,6 +240,23 @@ func structEdits(b *Built, f *refxz.File, r *sim.Rng) []structEdit {
 					add("dictionary-byte", fmt.Sprintf("%s byte %d", btag, db), img)
 				}
 			}
+			// the compressed-size field of an LZMA2 chunk header (no CRC covers it;
+			// the decoder knows where the chunk's data ends): too large, too small
+			for ci, ch := range bl.Chunks {
+				if ch.Kind == "end" || ch.Kind[0] != 'L' || (ci != 0 && ci != len(bl.Chunks)-2 && r.Chance(3, 4)) {
+					continue
+				}
+				at := bl.DataOffset + ch.Offset + 3
+				for _, d := range []int{1, 2, 4, -1} {
+					v := ch.Compressed - 1 + d
+					if v < 0 || v > 0xffff {
+						continue
+					}
+					img := clone()
+					img[at], img[at+1] = byte(v>>8), byte(v)
+					add("chunk-compressed-size", fmt.Sprintf("%s chunk %d declares %d compressed bytes, has %d", btag, ci, v+1, ch.Compressed), img)
+				}
+			}
 			// wrong check value
 			if n := len(bl.Check); n > 0 {
 				img := clone()
